@@ -138,14 +138,12 @@ pub fn gen_cmds(r: &mut Rng, cram: bool) -> Vec<Cmd> {
     let n = r.range(1, 3);
     (0..n).map(|_| {
         let k = r.range(1, 3);
-        let mut writes: Vec<Write1> = (0..k).map(|_| Write1 { fd: if r.chance(1, 3) { 2 } else { 1 }, bytes: { let mut p = gen_payload(r); if cram { strip_divider(&mut p); } p } }).collect();
-        // the listed known finding (C13): a Cram payload line that carries the divider prefix
+        let mut writes: Vec<Write1> = (0..k).map(|_| Write1 { fd: if r.chance(1, 3) { 2 } else { 1 }, bytes: gen_payload(r) }).collect();
+        // a Cram payload line that looks like a divider with another salt (it used to be read as one: the former known finding of C13)
         if cram && r.chance(1, 40) { writes.push(Write1 { fd: 1, bytes: b"~~~~~~~~EXECDIVIDER::x::0::0\n".to_vec() }); }
         Cmd { writes, code: *r.pick(&[0, 0, 1, 2, 3, 42, 127, 200, 255]) }
     }).collect()
 }
-// the Cram executor cannot carry the divider prefix in a payload (known finding C13): keep it out of the generated stream
-fn strip_divider(p: &mut Vec<u8>) { while let Some(i) = p.windows(8).position(|w| w == b"~~~~~~~~") { p[i] = b'-'; } }
 
 fn show_out(o: &Output) -> String {
     format!("{}:{}:{}", match &o.exit_code { ExitStatus::Code(c) => c.to_string(), ExitStatus::Unknown => "U".into(), ExitStatus::Detached => "D".into(), ExitStatus::Skipped => "S".into(), ExitStatus::Timeout(_) => "T".into() },
